@@ -156,6 +156,32 @@ def _parse_composition_keywords(
     )
 
 
+def _nullable_non_object_ref(node: Any, context: ParsingContext) -> Mapping[str, Any] | None:
+    """Rewrite the OpenAPI 3.0 spelling of a nullable reference to a non-object schema.
+
+    ``{"allOf": [{"$ref": X}], "nullable": true}`` is how 3.0 documents say "X or null" (siblings of ``$ref`` are
+    ignored). When X is an enum, a primitive alias or an array there are no properties to merge, and merging produced an
+    empty object in place of X. Such a node is equivalent to ``{"anyOf": [{"$ref": X}], "nullable": true}``.
+    """
+    if not isinstance(node, Mapping) or "$ref" in node:
+        return None
+    all_of = node.get("allOf")
+    if not (isinstance(all_of, list) and len(all_of) == 1):
+        return None
+    only = all_of[0]
+    if not (isinstance(only, Mapping) and set(only) == {"$ref"}):
+        return None
+    structural = ("properties", "required", "type", "anyOf", "oneOf", "items", "enum", "additionalProperties")
+    if any(k in node for k in structural):
+        return None
+    target = context.raw_spec_schemas.get(str(only["$ref"]).split("/")[-1])
+    if not isinstance(target, Mapping) or target.get("type") in (None, "object") or "properties" in target:
+        return None
+    rewritten = {k: v for k, v in node.items() if k != "allOf"}
+    rewritten["anyOf"] = [only]
+    return rewritten
+
+
 def _parse_properties(
     properties_node: Mapping[str, Any],
     parent_schema_name: str | None,
@@ -504,6 +530,8 @@ def _parse_schema(
             raise TypeError(
                 f"Schema node for '{schema_name or 'anonymous'}' must be a Mapping (e.g., dict), got {type(schema_node)}"
             )
+
+        schema_node = _nullable_non_object_ref(schema_node, context) or schema_node
 
         # If the current schema_node itself is a $ref, resolve it.
         if "$ref" in schema_node:
